@@ -60,6 +60,24 @@ class Scene:
 
         self.odb.cache_types = list(types)
         self.saved_link = False
+        import dvc_data.hashfile.checkout as _co
+
+        real_save_link = _co._save_link
+
+        def capturing(path, fs, diff, updated_mtimes, state):
+            # what checkout hands to _get_mtime_from_changes: its own bookkeeping, not a walk
+            from dvc_data.hashfile.diff import ROOT
+
+            unchanged = []
+            for ch in diff.unchanged:
+                if ch.old.key == ROOT:
+                    continue
+                m = ch.old.meta
+                unchanged.append([fs.sep.join((path, *ch.old.key)), None if m is None else m.mtime])
+            self.link_inputs = {"updated": dict(updated_mtimes), "unchanged": unchanged}
+            return real_save_link(path, fs, diff, updated_mtimes, state)
+
+        _co._save_link = capturing
 
         def f():
             return checkout(self.ws, self.fs, self.obj(oid), self.odb, state=self.state, **kw)
@@ -76,6 +94,7 @@ class Scene:
         try:
             kind, res = safe_call(f, expected=(PromptError, CheckoutError, LinkError, FileNotFoundError))
         finally:
+            _co._save_link = real_save_link
             if self.state is not None:
                 del self.state.set_link
         if kind == "ok":
@@ -224,7 +243,37 @@ def canon_model_ws(ans, sizes):
     return dict(sorted(out.items()))
 
 
+def link_token_corr(ctx, sc, case):
+    """LinkRecord.fromChanges ~ _get_mtime_from_changes: the dictionary checkout tokenises (from its own bookkeeping) against the
+    model's, and against what a walk of the workspace gives - for a directory workspace whose record was just saved"""
+    from dvc_data.fsutils import _localfs_info
+    from dvc_data.hashfile.utils import _tokenize_mtimes
+
+    li = getattr(sc, "link_inputs", None)
+    if not li or not os.path.isdir(sc.ws) or sc.state is None:
+        return
+    walk = {}
+    for fp in sc.fs.find(sc.ws):
+        try:
+            walk[fp] = _localfs_info(fp)["mtime"]
+        except OSError:
+            continue
+    floats = sorted({t for t in list(li["updated"].values()) + [t for _, t in li["unchanged"] if t is not None] + list(walk.values())})
+    rank = {t: i for i, t in enumerate(floats)}
+    ans = ctx.driver.ask({"op": "link_token", "ws": [[p, rank[t]] for p, t in walk.items()],
+                          "updated": [[p, rank[t]] for p, t in li["updated"].items()],
+                          "unchanged": [[p, None if t is None else rank[t]] for p, t in li["unchanged"]]})
+    model_dict = {p: floats[i] for p, i in ans.get("from_changes", [])}
+    saved = sc.state.links.get(os.path.relpath(sc.ws, sc.root))
+    ctx.count("link_token corr")
+    ctx.corr("LinkRecord.fromChanges~_get_mtime_from_changes (token of the saved record)", case,
+             None if saved is None else saved[1], _tokenize_mtimes(model_dict))
+    ctx.corr("LinkRecord.canon ws~get_mtime_and_size (token of a walk)", case,
+             _tokenize_mtimes(walk), _tokenize_mtimes({p: floats[i] for p, i in ans.get("walk", [])}))
+
+
 def link_record_oracle(ctx, sc, case, rec):
+    link_token_corr(ctx, sc, case)
     """C10, last clause: the link record a checkout saved matches the resulting workspace - the inode of the checkout path itself
     (not of what a symbolic link there points at) and the mtime token - so that the untouched path is recognised as a link of ours"""
     ctx.count("link_record_checked")
